@@ -47,7 +47,10 @@ RULE_ADDED = (
               'nd outside JSON. '
               ' '
               'Round 12: a third of the shards run their version-5 manager on the SGX platform,'
-              ' a third on the TCPSigner platform. ')
+              ' a third on the TCPSigner platform. '
+              ' '
+              'Round 13: clients that send their line and close their writing side at once, the'
+              'n read - also after queueing behind another client. ')
 RULE = RULE + " " + RULE_ADDED.strip()
 ASSUMPTIONS = [
     "simulated device keeps to its protocol (firmware-like chunking, well-formed answers)",
@@ -684,6 +687,47 @@ def entry_point_process(acc, spec, rng):
                 acc.violation("entry-point:manager-gone-after-client-%s" % name,
                               {"exit_status": child.poll(), "probe": repr(probe)[:80],
                                "legacy_mode": v1}, {"kind": "entry", "behaviour": name})
+                return
+            acc.count("answered")
+        # ---- clients that send their line and close their writing side at once (what
+        # `nc -N`, a piped client or HTTP-style one-shot clients do), then read: they get
+        # their one line like anybody else - also when they had to queue behind another
+        # client meanwhile (the half-close is long there when their turn comes)
+        for k in range(6):
+            acc.evaluations += 1
+            acc.count("half_closing_clients")
+            line = [good, b'{"command":"version"}\n',
+                    json.dumps({"command": "blockchainState", "version": ver}).encode() + b"\n"
+                    ][k % 3]
+            try:
+                first = None
+                if k >= 3:
+                    first = socket.create_connection(("127.0.0.1", port), timeout=10)
+                    time.sleep(0.05)      # (the server now waits for this client's line)
+                cs = socket.create_connection(("127.0.0.1", port), timeout=20)
+                cs.sendall(line)
+                cs.shutdown(socket.SHUT_WR)
+                if first is not None:
+                    time.sleep(0.1)
+                    first.sendall(b'{"command":"version"}\n')
+                    first.makefile("rb").readline()
+                    first.close()
+                reply = b""
+                while True:
+                    ch = cs.recv(65536)
+                    if not ch:
+                        break
+                    reply += ch
+                cs.close()
+            except OSError as e:
+                reply = None
+            if reply is None or reply.count(b"\n") != 1 or judge(reply, None) is not None \
+                    or child.poll() is not None:
+                acc.violation("entry-point:half-closing-client-not-answered%s" % (
+                    "-after-queueing" if k >= 3 else ""),
+                    {"exit_status": child.poll(), "reply": repr(reply)[:120],
+                     "legacy_mode": v1, "line": line.decode()[:80]},
+                    {"kind": "entry", "behaviour": "half-close"})
                 return
             acc.count("answered")
         # ---- requests whose string fields invite catastrophic backtracking or any other
